@@ -132,7 +132,13 @@ def run_cases(ctx, rng, n_cases, sl):
                 viol = viol or ("C15/scale-dependent", f"result changes under uniform scaling by {c}")
             g4, _ = cluster_real(X + sh, f, mx, phi, t)
             r4, b4 = reference(X + sh, f, mx, phi, t)
-            if not b4 and sorted(g4) != sorted(got):
+            # the relation is about geometry: only translations that are exact in binary64 count
+            # (all pairwise distances bit-identical); others perturb a converged population
+            Xs = X + sh
+            exact = all(np.array_equal(np.linalg.norm(Xs[i] - Xs, axis=1), np.linalg.norm(X[i] - X, axis=1)) for i in range(n))
+            if not exact:
+                sl.count("translation-not-exact-in-binary64(skipped)")
+            if exact and not b4 and sorted(g4) != sorted(got):
                 viol = viol or ("C15/translation-dependent", f"result changes under translation by {sh.tolist()}")
             g5, _ = cluster_real(X, -f, not mx, phi, t)
             if sorted(g5) != sorted(got):
